@@ -8,6 +8,7 @@ interpreter style drives exception_filter (all usage forms), remove_path_on_erro
 and raise_with_cause.
 """
 import collections
+import sys
 import itertools
 import logging
 import os
@@ -193,6 +194,7 @@ class _State:
         self.logs = []       # one recording logger per context, in order of entry
         self.created = []    # fresh exception objects, in order of creation
         self.snaps = {}      # id(exc) -> traceback entries when it was first caught
+        self.capsnap = {}    # id(context) -> (context, traceback entries of the active exception at its last capture)
         self.orig = None
         self.cause = None
 
@@ -210,7 +212,13 @@ class _State:
 # ---------------------------------------------------------------------
 # interpreter for handler programs
 # ---------------------------------------------------------------------
+def _note_capture(st, ctxt):
+    """The harness's own record of the traceback the active exception has at the moment ctxt captures it."""
+    st.capsnap[id(ctxt)] = (ctxt, tb_entries(sys.exc_info()[2]))
+
+
 def _run_body(SRE, st, ctxt, body):
+    _note_capture(st, ctxt)
     for op in body:
         k = op[0]
         if k == 'noop':
@@ -240,8 +248,10 @@ def _run_body(SRE, st, ctxt, body):
             except Fresh:
                 st.snaps[id(e)] = tb_entries(e.__traceback__)
                 ctxt.capture()
+                _note_capture(st, ctxt)
         elif k == 'recapture':
             ctxt.capture()
+            _note_capture(st, ctxt)
         elif k == 'nest':
             flag, mode, sub = op[1], op[2], op[3]
             if mode == 'plain':
@@ -362,6 +372,22 @@ def _eval_sre(ctx, case):
     if tail[-1] != site or have[-len(tail):] != tail:
         ctx.fail('sre-traceback-tail', case,
                  {'want_tail': _show(tail), 'got': _show(have), 'site': _show([site])})
+    elif not fab:
+        # "with the traceback of its original raise": behind the frame that re-raised it (the first force_reraise
+        # frame in the chain) comes exactly the traceback the exception had when that context captured it - not
+        # frames it picked up since then, e.g. when the body raised and caught the same object again
+        tb = got.__traceback__
+        pos = 0
+        while tb is not None and tb.tb_frame.f_code.co_name != 'force_reraise':
+            tb = tb.tb_next
+            pos += 1
+        if tb is not None:
+            rec = st.capsnap.get(id(tb.tb_frame.f_locals.get('self')))
+            if rec is not None:
+                ctx.clause('sre-traceback-exact-after-reraise')
+                if have[pos + 1:] != rec[1]:
+                    ctx.fail('sre-traceback-exact-after-reraise', case,
+                             {'want_after_force_reraise': _show(rec[1]), 'got': _show(have)})
     if cls == 'chained' and want_tok == 'orig':
         ctx.clause('sre-cause-kept')
         if got.__cause__ is not st.cause:
@@ -375,7 +401,7 @@ def make_site(cls):
 # ---------------------------------------------------------------------
 # exception_filter
 # ---------------------------------------------------------------------
-FILTER_MAKES = ['constructor', 'decorator', 'method', 'callable-object']
+FILTER_MAKES = ['constructor', 'decorator', 'method', 'callable-object', 'method-equal-instances']
 FILTER_USES = ['with', 'with-in-except', 'with-no-exception', 'call-active', 'call-active-after-inner',
                'call-inactive', 'call-other-active']
 PREDS = ['true', 'false', 'truthy-str', 'falsy-none', 'falsy-zero', 'isinstance-Exception',
@@ -480,7 +506,27 @@ def _make_filter(make, pred, codes):
         return _holder()(pred, codes).flt
     if make == 'callable-object':
         return excutils.exception_filter(_PredObject(pred, codes))
+    if make == 'method-equal-instances':
+        # two distinct instances that compare (and hash) equal but filter differently; the first one's bound
+        # filter is looked up first and both stay alive
+        Holder = _holder()
+
+        class EqHolder(Holder):
+            def __eq__(self, other):
+                return isinstance(other, EqHolder)
+
+            def __hash__(self):
+                return 7
+        first = EqHolder('false' if pred != 'false' else 'true', codes)
+        _keepalive.append((first, first.flt))
+        second = EqHolder(pred, codes)
+        _keepalive.append(second)
+        del _keepalive[:-40]
+        return second.flt
     raise ValueError(make)
+
+
+_keepalive = []
 
 
 def _use_filter(flt, use, st, cls, exc):
@@ -575,7 +621,7 @@ def _eval_filter(ctx, case):
 # remove_path_on_error
 # ---------------------------------------------------------------------
 RPOE_STATES = ['file', 'absent', 'created-in-body', 'symlink', 'odd-name']
-RPOE_REMOVES = ['default', 'custom-unlink', 'custom-raises', 'custom-raises-after-unlink']
+RPOE_REMOVES = ['default', 'custom-unlink', 'custom-raises', 'custom-raises-after-unlink', 'custom-reentrant']
 RPOE_BODIES = ['raise', 'complete', 'raise-in-except']
 RPOE_CLASSES = ['plain', 'need', 'chained', 'pre', 'key', 'oserror', 'base']
 _path_counter = [0]
@@ -623,7 +669,20 @@ def _eval_rpoe(ctx, case):
             os.unlink(p)
         _raise_fresh(rexc)
 
+    def custom_reentrant(p):
+        # the remover itself uses remove_path_on_error for a sub-step whose failure it tolerates
+        calls.append(p)
+        try:
+            with fileutils.remove_path_on_error(p + '.sub'):
+                raise CNeed(1, 2)
+        except CNeed:
+            pass
+        if os.path.lexists(p):
+            os.unlink(p)
+
     kwargs = {}
+    if remove == 'custom-reentrant':
+        kwargs['remove'] = custom_reentrant
     if remove == 'custom-unlink':
         kwargs['remove'] = custom_unlink
     elif remove in ('custom-raises', 'custom-raises-after-unlink'):
@@ -703,7 +762,7 @@ def _eval_rpoe(ctx, case):
         ctx.clause('rpoe-path-removed')
         if exists:
             ctx.fail('rpoe-path-removed', case, {'path_still_exists': True})
-        if remove == 'custom-unlink' and (not calls or any(c != path for c in calls)):
+        if remove in ('custom-unlink', 'custom-reentrant') and (not calls or any(c != path for c in calls)):
             ctx.fail('rpoe-remove-called-with-path', case, {'calls': calls, 'path': path})
     finally:
         for p in (path, target):
